@@ -60,3 +60,30 @@ func Assumptions(prop string) []string {
 }
 
 var extra = map[string][]string{}
+
+func init() {
+	enum := "Explicit-state enumeration: states are (query, inline dataset, window, options[, fault plan]) tuples produced by applying productions to smaller states (grammar productions over canonically printed queries, data-layout productions, one more fault); duplicates are removed by canonical form (parser.ParseExpr(q).String()); `transitions` counts productions applied, `states` the distinct states executed on the real engine (every state is an execution of the implementation, so traces_validated_against_impl = executions). "
+	sched := "Schedule exploration: stateless DFS over scheduling decisions of the instrumented real engine under a cooperative scheduler; a state is one complete execution (schedule-tree leaf), `transitions` the scheduling steps executed; iterative deviation bounding (bounds per scenario under coverage.bounds); every prefix replay is verified step by step (a divergence is a harness error). "
+	Rule["C01"] = enum + "Non-trivial: the reference result is non-empty. Oracle: equality with promql.NewEngine on the same storage."
+	Rule["C02"] = enum + "Non-trivial: the reference returns at least one point (the layout puts a sample within reach of a step)."
+	Rule["C03"] = enum + "Non-trivial: the reference returns at least one point."
+	Rule["C04"] = enum + "Non-trivial: the reference returns at least one point (a non-empty group exists at some step)."
+	Rule["C05"] = enum + "Non-trivial: the reference returns at least one point (some pair matches and passes the filter); error cases are counted separately in outcome_counts."
+	Rule["C06"] = enum + "Non-trivial: the reference returns at least one point."
+	Rule["C07"] = enum + "A state is one (query, dataset, window) triple; per state the range query, one instant query per grid step and 3 (thorough: up to 78) sub-window queries run on the real engine. Non-trivial: the range result is non-empty."
+	Rule["C08"] = enum + "Per state 5 creations/executions (reference, fallback on, fallback off, creation over a panicking storage with fallback on and off). Non-trivial: the reference result is non-empty."
+	Rule["C09"] = enum + "Per state the query runs under NoOptimizers and under each of 8 optimizer subsets. Non-trivial: the unoptimised result is non-empty."
+	Rule["C10"] = enum + "A state is (query, data variant, assignment of series to engines, window); central and distributed engine both run. Non-trivial: the central result is non-empty."
+	Rule["C11"] = sched + "Non-trivial: the schedule differs from the default schedule in at least one decision. Plus " + enum + "(configuration half: GOMAXPROCS x series count x storage order x junk series)."
+	Rule["C12"] = sched + "Non-trivial: non-default schedule. The race half counts one state per round of 34 concurrent queries."
+	Rule["C13"] = enum + "Fault plans address (callback kind, select, series, occurrence) of every callback the fault-free run reaches. Non-trivial: the fault actually fired (or, for parameters, the reference result is non-empty)."
+	Rule["C14"] = sched + "The cancellation event is placed before scheduling step k for every k (outer loop). Non-trivial: non-default schedule or an event that fired. Plus fault enumeration of cancel/block at every storage callback in free mode."
+	Rule["C15"] = enum + "Non-trivial: the injected storage error fired."
+	Rule["C16"] = enum + "Non-trivial: every evaluated state (each compares at least one Select call)."
+	Rule["C17"] = enum + "Non-trivial: the fault fired / the history has 3 queries."
+	Rule["C18"] = enum + "Per state one monitored execution plus 5 call-order drives of the physical plan. Non-trivial: the result is non-empty."
+	Rule["C19"] = enum + "Non-trivial: a successful non-empty result (the validator has something to check)."
+	Rule["C20"] = "Explicit-state enumeration of operation histories: all sequences over the operation alphabet up to the depth bound x pool policies; every operation executes on the real long-lived engine and on a fresh engine. Non-trivial: histories of length >= 2."
+	extra["C12"] = []string{"race half: dynamic race detection on free-running executions (not exhaustive)"}
+	extra["C01"] = []string{"reference model = promql.NewEngine v0.40.1 on the same model storage; values compared to 1e-9 relative"}
+}
